@@ -120,6 +120,26 @@ def judge(res, wd, tag, jobs, crashes, pid, cap=4):
         what = "timed out (a step of the real code did not return)" if rc == -999 else "died rc=%d" % rc
         res.violations.append(("B-tree driver %s while running %r: %s" % (what, where[:600], err[-500:]), save(wd, "%s_crash_%d" % (tag, k), [where])))
 
+def fold_ops(events, cap=48):
+    """Re-encodes runs of sequential "ins"/"erase" events as one "ops" event (a smaller data module; same content)."""
+    out = []; run = []
+    def flush():
+        if len(run) == 1:
+            out.append(run[0])
+        elif run:
+            out.append({"e": "ops", "ks": [e["k"] for e in run], "ins": [e["e"] == "ins" for e in run],
+                        "rs": [e["ok"] if e["e"] == "ins" else e["n"] == 1 for e in run]})
+        del run[:]
+    for e in events:
+        if e["e"] in ("ins", "erase") and (e["e"] == "ins" or e["n"] in (0, 1)):
+            run.append(e)
+            if len(run) >= cap:
+                flush()
+        else:
+            flush(); out.append(e)
+    flush()
+    return out
+
 def _validate_shard(wd, name, jobs, uniq, mult, max_rejections=3):
     """returns (events accepted, executions validated, tlc results, violations, infra errors)"""
     nev = 0; nexec = 0; tl = []; viol = []; infra = []
@@ -128,7 +148,7 @@ def _validate_shard(wd, name, jobs, uniq, mult, max_rejections=3):
         events = []; ev_job = []
         for i in uniq:
             events.append({"e": "reset"}); ev_job.append(i)
-            for e in jobs[i].events:
+            for e in fold_ops(jobs[i].events):
                 events.append(e); ev_job.append(i)
         acc, consumed, r = tracecheck.validate("SortedSetAbsTrace", events, wd, "%s_%d" % (name, rnd), constants=THREADS, timeout=2400,
                                                heap="4g")
@@ -144,7 +164,7 @@ def _validate_shard(wd, name, jobs, uniq, mult, max_rejections=3):
         start = at
         while start > 0 and events[start]["e"] != "reset":
             start -= 1
-        pre = [e for e in events[start + 1:at] if e["e"] in ("call", "ret", "ins", "erase", "fill")][-12:]
+        pre = [e for e in events[start + 1:at] if e["e"] in ("call", "ret", "ins", "erase", "fill", "ops")][-12:]
         nev += at; nexec += sum(mult[i] for i in uniq if i < ji)
         viol.append(("history of the real B-tree rejected by spec/SortedSetAbs.tla at event %s (preceding events of this history: %s); "
                      "job %r (%d executions produced this history)" % (short, pre, jobs[ji].header, mult[ji]),
